@@ -70,6 +70,8 @@ struct Excl {
     conds: bool,
     equal_times: bool,
     no_compaction: bool,
+    /// C01's open findings store events twice across a restart; LIMIT on sequences then counts differently
+    no_restart: bool,
 }
 
 fn case_strategy(tier: Tier, ex: Excl) -> BoxedStrategy<Case> {
@@ -88,7 +90,7 @@ fn case_strategy(tier: Tier, ex: Excl) -> BoxedStrategy<Case> {
                 1 => (1u8..=2).prop_map(move |n| if ex.no_compaction { Op::Barrier } else { Op::Compact(n) }),
             ];
             let ops = prop::collection::vec(op, 6..=tier.pick(40, 70));
-            let tail = prop::collection::vec(prop_oneof![3 => Just(Op::Flush), 2 => (1u8..=2).prop_map(move |n| if ex.no_compaction { Op::Barrier } else { Op::Compact(n) }), 1 => Just(Op::Restart)], 1..=2);
+            let tail = prop::collection::vec(prop_oneof![3 => Just(Op::Flush), 2 => (1u8..=2).prop_map(move |n| if ex.no_compaction { Op::Barrier } else { Op::Compact(n) }), 1 => Just(if ex.no_restart { Op::Barrier } else { Op::Restart })], 1..=2);
             let q = (
                 any::<bool>(),
                 opt_w(if ex.conds { 0.0 } else { 0.4 }, prop::sample::select(vec!["/a", "/b"])),
@@ -106,7 +108,7 @@ fn case_strategy(tier: Tier, ex: Excl) -> BoxedStrategy<Case> {
 static EXCL: Mutex<Option<Excl>> = Mutex::new(None);
 
 fn run_case(c: &Case, rep: &mut CaseReport) -> Verdict {
-    let ex = EXCL.lock().unwrap().unwrap_or(Excl { limit: false, preceded: false, conds: false, equal_times: false, no_compaction: false });
+    let ex = EXCL.lock().unwrap().unwrap_or(Excl { limit: false, preceded: false, conds: false, equal_times: false, no_compaction: false, no_restart: false });
     let types = seq_types();
     let mut w = match World::start("c15", &c.cfg, &types, true) {
         Ok(w) => w,
@@ -299,7 +301,7 @@ pub fn run(ctx: &Ctx) -> i32 {
     report.assumptions = vec!["time is the core timestamp set through the clock hook; pairs are read as consecutive rows of the response".into()];
     replay_known(ctx, &stats, &mut report, &replay);
     replay_regressions(ctx, &stats, &mut report, &replay);
-    let ex = Excl { limit: ctx.open("seq.limit"), preceded: ctx.open("seq.preceded_by"), conds: ctx.open("seq.where"), equal_times: ctx.open("seq.equal_times"), no_compaction: ctx.open_any("compaction.partial_drain") };
+    let ex = Excl { limit: ctx.open("seq.limit"), preceded: ctx.open("seq.preceded_by"), conds: ctx.open("seq.where"), equal_times: ctx.open("seq.equal_times"), no_compaction: ctx.open_any("compaction.partial_drain"), no_restart: ctx.open_any("crash.after_manual_flush_or_clean_restart") || ctx.open_any("crash.store_after_compaction_and_restart") };
     *EXCL.lock().unwrap() = Some(ex);
     crate::props::c02::KNOWN_ID_REUSE.store(ctx.open_any("layout.stale_cache_after_id_reuse"), std::sync::atomic::Ordering::Relaxed);
     let cases = ctx.tier.pick(96, 1500);
